@@ -72,11 +72,17 @@ def is_remove_call(unit, c):
     return None
 
 
-def err_handling(body, call):
+def err_handling(body, call, _fate=None):
     """Classify what happens to the error of `call`: returns (category, detail)
     category in PROPAGATED, RETURNED, LOGGED, ERR-RETURNED, HANDLED-ARM, PASSED, STORED, DISCARDED, PANICS"""
-    fate = classify_result(body, call)
+    fate = classify_result(body, call) if _fate is None else _fate
     k = fate.kinds
+    # map_err / or_else / inspect_err closures that log the error before it is dropped or converted
+    for c, al in fate.closures:
+        cp = body.unit.closure_of_type(body.local_ty(al))
+        cb = body.unit.body(cp) if cp else None
+        if cb is not None and arm_reaches_call(cb, 0, LOG_CALL):
+            return 'LOGGED', 'by %s' % cp
     if 'PANICS' in k:
         return 'PANICS', '; '.join(fate.notes)
     if 'DISCARDED' in k:
